@@ -866,3 +866,27 @@ func (an *An) classify(e ssa.Value, phi *ssa.Phi, facts []ir.Fact, depth int) (i
 	}
 	return []AV{an.Eval(e, facts)}, nil
 }
+
+// Enter returns an analyzer for the static repository callee of call with its
+// parameters bound to the argument ranges (evaluated under facts), or nil.
+func (an *An) Enter(call *ssa.Call, facts []ir.Fact) *An {
+	ci := ir.Callee(call)
+	if ci.Static == nil || len(ci.Static.Blocks) == 0 || ci.Closure != nil {
+		return nil
+	}
+	for p := an; p != nil; p = p.parent {
+		if p.Fn == ci.Static {
+			return nil
+		}
+	}
+	sub := New(ci.Static)
+	sub.parent = an
+	sub.Name, sub.Assume, sub.Inline, sub.OpaqueFloatMayBeNaN, sub.NonNegative, sub.AssumeNegativeDiff = an.Name, an.Assume, an.Inline, an.OpaqueFloatMayBeNaN, an.NonNegative, an.AssumeNegativeDiff
+	sub.params = map[*ssa.Parameter]AV{}
+	for i, p := range ci.Static.Params {
+		if i < len(call.Call.Args) {
+			sub.params[p] = an.Eval(call.Call.Args[i], facts)
+		}
+	}
+	return sub
+}
